@@ -450,6 +450,6 @@ def run(ck):
 def replay(ck, data):
   if (data.get('case') or {}).get('pass') in ('Mamba2020', 'HeuTopoUnrollSim'): return c01_mamba.replay(ck, data)
   if (data.get('case') or {}).get('scc'): return c11_scc.replay(ck, data)
-  if (data.get('case') or {}).get('openloop') or (data.get('case') or {}).get('openloop_gap'): return c11_openloop.replay(ck, data)
+  if (data.get('case') or {}).get('openloop') or (data.get('case') or {}).get('openloop_gap') or (data.get('case') or {}).get('openloop_greenlet'): return c11_openloop.replay(ck, data)
   print(data.get('kind'), data.get('signature')); print(str(data.get('detail'))[:1500])
   return rtlgen.replay_source(ck, data.get('case') or {})
